@@ -15,546 +15,86 @@
 //                                    forward / backward iteration, dereference of end() and of --begin()
 //     optional <0|1>              -> Optional<T>::get() and util::ref<T>::get() on an empty / engaged object
 //   A child that dies prints nothing; the parent then prints `<op echo> : !CRASH status=<n>` and goes on.
-#include <algorithm>
-#include <cctype>
-#include <csignal>
-#include <cstdio>
-#include <deque>
-#include <functional>
-#include <iostream>
-#include <map>
-#include <sstream>
-#include <string>
-#include <vector>
-#include <sys/wait.h>
-#include <unistd.h>
-#include <ipr/impl>
-#include "observe.hxx"
+//
+// Translation units (compiled in parallel by vlib/c14.py, all with the same sanitizer flags): c14probe.cxx (this file: pools, ops,
+// the only unit that names the universal observer), c14obs.cxx (the observer's node visitor, in five parts), c14kinds_a/b/c.cxx
+// (the registry of kinds), c14seq.cxx (sequences); shared declarations in c14probe.inc.
+#include "c14probe.inc"
 
-using namespace ipr;
-namespace cf = ipr::cxx_form;
+namespace c14 {
+   std::vector<Kind> kinds;
+
+   template<class Base> std::string ref_base(verif::Observer& ob, const Base& x) { return ob.ref(x); }
+   template std::string ref_base(verif::Observer&, const ipr::Node&);
+   template std::string ref_base(verif::Observer&, const ipr::Token&);
+   template std::string ref_base(verif::Observer&, const ipr::Lexeme&);
+   template std::string ref_base(verif::Observer&, const ipr::Attribute&);
+   template std::string ref_base(verif::Observer&, const ipr::Capture_specification&);
+   template std::string ref_base(verif::Observer&, const ipr::Capture&);
+   template std::string ref_base(verif::Observer&, const ipr::Translation_unit&);
+   template std::string ref_base(verif::Observer&, const ipr::Module&);
+   template std::string ref_base(verif::Observer&, const ipr::Module_name&);
+   template std::string ref_base(verif::Observer&, const ipr::Substitution&);
+   template std::string ref_base(verif::Observer&, const cf::Constraint&);
+   template std::string ref_base(verif::Observer&, const cf::Requirement&);
+   template std::string ref_base(verif::Observer&, const cf::Indirector&);
+   template std::string ref_base(verif::Observer&, const cf::Morphism&);
+   template std::string ref_base(verif::Observer&, const cf::Species_declarator&);
+   template std::string ref_base(verif::Observer&, const cf::Declarator&);
+   template std::string ref_base(verif::Observer&, const cf::Initialization_provision&);
+   template std::string ref_base(verif::Observer&, const cf::Elemental_initializer&);
+   template std::string ref_base(verif::Observer&, const cf::Subobject_designator&);
+   template std::string ref_base(verif::Observer&, const cf::Earmarked_initializer&);
+   template std::string ref_base(verif::Observer&, const cf::Proclamator&);
+
+   // ---- pools -------------------------------------------------------------------------------------------
+   void Ctx::build(std::uint64_t seed)
+   {
+      auto& L = lex;
+      global = unit.global_region();
+      work = global->make_subregion();
+      forms = global->make_subregion();
+      const ipr::Type* base[] = {&L.int_type(), &L.char_type(), &L.long_type(), &L.double_type(), &L.uint_type(), &L.short_type(),
+                                 &L.float_type(), &L.uchar_type()};
+      // the seed only permutes which built-in sits under which compound type: outcomes never depend on it
+      const std::size_t rot = static_cast<std::size_t>(seed % 8);
+      const ipr::Type& klass = *L.make_class(*global);
+      for (int i = 0; i < 24; ++i) {
+         const ipr::Type* t = base[(i + rot) % 8];
+         for (int d = 0; d <= i / 8 + 1; ++d) t = &L.get_pointer(*t);
+         tt.push_back(&L.get_ptr_to_member(klass, *t));
+      }
+      for (int i = 0; i < 8; ++i) ot.push_back(&L.get_reference(L.get_pointer(*base[(i + rot) % 8])));
+      for (int i = 0; i < 8; ++i) oes.push_back(L.make_phantom(*ot[i]));
+      for (int i = 0; i < 8; ++i) {
+         std::u8string w = u8"id";
+         w += static_cast<char8_t>('a' + i);
+         words.push_back(w);
+         ids.push_back(&L.get_identifier(words.back()));
+         strs.push_back(&L.get_string(words.back()));
+      }
+      for (int i = 0; i < 4; ++i) {
+         Source_location loc;
+         loc.line = Line_number{static_cast<std::uint32_t>(10 + i)};
+         loc.column = Column_number{static_cast<std::uint32_t>(3 * i + 1)};
+         loc.file = File_index{static_cast<std::uint32_t>(i)};
+         tokens.emplace_back(*strs[i], loc, TokenValue{static_cast<std::uint16_t>(100 + i)}, TokenCategory{static_cast<std::uint8_t>(i + 1)});
+      }
+      // name everything the pools hold, in a fixed order
+      for (auto* t : tt) ob.ref(*t);
+      for (auto* t : ot) ob.ref(*t);
+      for (auto* e : oes) ob.ref(*e);
+      for (auto* i : ids) ob.ref(*i);
+      for (auto* s : strs) ob.ref(*s);
+      ob.ref(static_cast<const ipr::Region&>(*global));
+      ob.ref(static_cast<const ipr::Region&>(*work));
+      ob.ref(static_cast<const ipr::Region&>(*forms));
+   }
+}
+
+using namespace c14;
 
 namespace {
-   using Codes = std::vector<int>;
-   int code(const Codes& k, std::size_t i) { return i < k.size() ? k[i] : 0; }
-
-   struct Link {
-      std::string name;
-      int arity;
-      std::function<void(int)> set;
-   };
-   struct Instance {
-      std::string self;
-      std::vector<Link> links;
-   };
-
-   template<class F>
-   std::string guardL(F&& f)
-   {
-      try { return f(); }
-      catch (const std::logic_error&) { return "!L"; }
-      catch (const std::exception& e) { return "!X(" + verif::demangle(typeid(e).name()) + ")"; }
-      catch (...) { return "!X(?)"; }
-   }
-
-   struct Ctx {
-      impl::Lexicon lex;
-      impl::Translation_unit unit{lex};
-      impl::attr_factory attrs;
-      impl::capture_spec_factory caps;
-      impl::Module module{lex};
-      verif::Observer ob;
-      std::map<std::string, std::string> reg;            // raw observer text -> symbolic token ($link, $link.part)
-      impl::Region* global = nullptr;
-      impl::Region* work = nullptr;                      // where targets and operands are declared
-      impl::Region* forms = nullptr;                     // used as form_factory
-      std::vector<const ipr::Type*> tt;                  // target types: one per link, never used by an operand
-      std::size_t next_tt = 0;
-      std::vector<const ipr::Type*> ot;                  // operand types
-      std::vector<const ipr::Expr*> oes;                 // typed operand expressions
-      std::vector<const ipr::Identifier*> ids;
-      std::vector<const ipr::String*> strs;
-      std::deque<impl::Token> tokens;
-      std::deque<impl::ref_sequence<ipr::Attribute>> attr_seqs;
-      std::deque<impl::Warehouse<ipr::Type>> warehouses;
-      int fresh = 0;
-      std::deque<std::u8string> words;
-
-      // ---- pools -------------------------------------------------------------------------------------------
-      void build(std::uint64_t seed)
-      {
-         auto& L = lex;
-         global = unit.global_region();
-         work = global->make_subregion();
-         forms = global->make_subregion();
-         const ipr::Type* base[] = {&L.int_type(), &L.char_type(), &L.long_type(), &L.double_type(), &L.uint_type(), &L.short_type(),
-                                    &L.float_type(), &L.uchar_type()};
-         // the seed only permutes which built-in sits under which compound type: outcomes never depend on it
-         const std::size_t rot = static_cast<std::size_t>(seed % 8);
-         const ipr::Type& klass = *L.make_class(*global);
-         for (int i = 0; i < 24; ++i) {
-            const ipr::Type* t = base[(i + rot) % 8];
-            for (int d = 0; d <= i / 8 + 1; ++d) t = &L.get_pointer(*t);
-            tt.push_back(&L.get_ptr_to_member(klass, *t));
-         }
-         for (int i = 0; i < 8; ++i) ot.push_back(&L.get_reference(L.get_pointer(*base[(i + rot) % 8])));
-         for (int i = 0; i < 8; ++i) oes.push_back(L.make_phantom(*ot[i]));
-         for (int i = 0; i < 8; ++i) {
-            std::u8string w = u8"id";
-            w += static_cast<char8_t>('a' + i);
-            words.push_back(w);
-            ids.push_back(&L.get_identifier(words.back()));
-            strs.push_back(&L.get_string(words.back()));
-         }
-         for (int i = 0; i < 4; ++i) {
-            Source_location loc;
-            loc.line = Line_number{static_cast<std::uint32_t>(10 + i)};
-            loc.column = Column_number{static_cast<std::uint32_t>(3 * i + 1)};
-            loc.file = File_index{static_cast<std::uint32_t>(i)};
-            tokens.emplace_back(*strs[i], loc, TokenValue{static_cast<std::uint16_t>(100 + i)}, TokenCategory{static_cast<std::uint8_t>(i + 1)});
-         }
-         // name everything the pools hold, in a fixed order
-         for (auto* t : tt) ob.ref(*t);
-         for (auto* t : ot) ob.ref(*t);
-         for (auto* e : oes) ob.ref(*e);
-         for (auto* i : ids) ob.ref(*i);
-         for (auto* s : strs) ob.ref(*s);
-         ob.ref(static_cast<const ipr::Region&>(*global));
-         ob.ref(static_cast<const ipr::Region&>(*work));
-         ob.ref(static_cast<const ipr::Region&>(*forms));
-      }
-
-      // ---- operands (complete, typed, shared by all states) -------------------------------------------------------
-      const ipr::Expr& oe(int i = 0) { return *oes.at(i % 8); }
-      const ipr::Type& oty(int i = 0) { return *ot.at(i % 8); }
-      const ipr::Identifier& oid(int i = 0) { return *ids.at(i % 8); }
-      const ipr::Name& oname(int i = 0) { return *ids.at(i % 8); }
-      const ipr::String& ostr(int i = 0) { return *strs.at(i % 8); }
-      const ipr::Token& otok(int i = 0) { return tokens.at(i % 4); }
-      impl::Expr_list& xlist()
-      {
-         auto* xl = lex.make_expr_list();
-         xl->push_back(&oe(1));
-         xl->push_back(&oe(2));
-         return *xl;
-      }
-      const ipr::Identifier& fresh_id()
-      {
-         std::u8string w = u8"fresh";
-         for (char ch : std::to_string(fresh++)) w += static_cast<char8_t>(ch);
-         words.push_back(w);
-         return lex.get_identifier(words.back());
-      }
-      const ipr::Product& product()
-      {
-         warehouses.emplace_back();
-         warehouses.back().push_back(oty(0));
-         warehouses.back().push_back(oty(1));
-         return lex.get_product(warehouses.back());
-      }
-      const ipr::Sum& sum()
-      {
-         warehouses.emplace_back();
-         warehouses.back().push_back(oty(2));
-         warehouses.back().push_back(oty(3));
-         return lex.get_sum(warehouses.back());
-      }
-      const ipr::Transfer& foreign_transfer()
-      {
-         return lex.get_transfer(lex.get_linkage(u8"Fortran"), lex.get_calling_convention(u8"fastcall"));
-      }
-      impl::Var& some_var() { return *work->declare_var(fresh_id(), oty(4)); }
-      impl::Mapping& some_mapping()
-      {
-         auto* m = lex.make_mapping(*work, Mapping_level{1});
-         m->param(oname(5), oty(5));
-         return *m;
-      }
-      const ipr::Scope_ref& scope_ref() { return *lex.make_scope_ref(oe(0), oe(1), oty(6)); }
-      const ipr::Enclosure& enclosure() { return *lex.make_enclosure(Delimiter::Paren, oe(0), oty(7)); }
-      const ipr::Sequence<ipr::Attribute>& attr_seq()
-      {
-         attr_seqs.emplace_back();
-         attr_seqs.back().push_back(&attrs.make_basic_attribute(otok(0)));
-         return attr_seqs.back();
-      }
-
-      // ---- targets of links (fresh per state, registered under their symbolic name) ---------------------------------
-      template<class X> void sym(const std::string& s, const X& x) { reg[ob.ref(x)] = s; }
-      const ipr::Type& T() { return *tt.at(next_tt++); }
-      const ipr::Type& T(const std::string& s) { auto& t = T(); sym(s, t); return t; }
-      const ipr::Expr& E(const std::string& s)
-      {
-         auto& t = T();
-         const ipr::Expr& e = *lex.make_phantom(t);
-         sym(s, e);
-         sym(s + ".type", t);
-         return e;
-      }
-      const ipr::Expr& EU(const std::string& s)
-      {
-         const ipr::Expr& e = *lex.make_phantom();
-         sym(s, e);
-         return e;
-      }
-      const ipr::Stmt& S(const std::string& s)
-      {
-         auto& t = T();
-         const ipr::Stmt& b = *lex.make_block(*work, t);
-         sym(s, b);
-         sym(s + ".type", t);
-         return b;
-      }
-      const ipr::Stmt& SU(const std::string& s)
-      {
-         const ipr::Stmt& b = *lex.make_block(*work);
-         sym(s, b);
-         return b;
-      }
-      const ipr::Region& R(const std::string& s)
-      {
-         const ipr::Region& r = *work->make_subregion();
-         sym(s, r);
-         return r;
-      }
-      const ipr::Linkage& LNK(const std::string& s)
-      {
-         const ipr::Linkage& l = lex.get_linkage(u8"TargetLinkage");
-         reg[ob.show(l)] = s;
-         return l;
-      }
-      const ipr::Name& N(const std::string& s)
-      {
-         const ipr::Name& n = fresh_id();
-         sym(s, n);
-         return n;
-      }
-
-      // ---- links ---------------------------------------------------------------------------------------------------
-      static std::string dollar(const char* name) { return std::string("$") + name; }
-      template<class M> Link typing(M& member, const char* name = "typing")
-      {
-         return {name, 2, [this, &member, s = dollar(name)](int c) { if (c) member = &T(s); }};
-      }
-      template<class M> Link optE(const char* name, M& member)
-      {
-         return {name, 2, [this, &member, s = dollar(name)](int c) { if (c) member = &E(s); }};
-      }
-      template<class M> Link deepE(const char* name, M& member)
-      {
-         return {name, 3, [this, &member, s = dollar(name)](int c) { if (c == 1) member = &EU(s); else if (c == 2) member = &E(s); }};
-      }
-      template<class M> Link optS(const char* name, M& member)
-      {
-         return {name, 2, [this, &member, s = dollar(name)](int c) { if (c) member = &S(s); }};
-      }
-      template<class M> Link deepS(const char* name, M& member)
-      {
-         return {name, 3, [this, &member, s = dollar(name)](int c) { if (c == 1) member = &SU(s); else if (c == 2) member = &S(s); }};
-      }
-      template<class M> Link optR(const char* name, M& member)
-      {
-         return {name, 2, [this, &member, s = dollar(name)](int c) { if (c) member = &R(s); }};
-      }
-      template<class M> Link optL(const char* name, M& member)
-      {
-         return {name, 2, [this, &member, s = dollar(name)](int c) { if (c) member = &LNK(s); }};
-      }
-      template<class M> Link optN(const char* name, M& member)
-      {
-         return {name, 2, [this, &member, s = dollar(name)](int c) { if (c) member = &N(s); }};
-      }
-      template<class M, class G> Link optG(const char* name, M& member, G gen)            // gen() -> pointer to a polymorphic target
-      {
-         return {name, 2, [this, &member, gen, s = dollar(name)](int c) { if (c) { auto* p = gen(); sym(s, *p); member = p; } }};
-      }
-      Link pseudo(const char* name) { return {name, -2, [](int) { }}; }                   // an operand fixed at construction (arity 2)
-      const ipr::Expr& operand(const Codes& k, std::size_t i, const char* name)
-      {
-         return code(k, i) ? E(dollar(name)) : EU(dollar(name));
-      }
-
-      template<class X> Instance I(const X& x, std::vector<Link> links = {}) { return Instance{ob.ref(x), std::move(links)}; }
-      // declarations of a general scope: links living in the master declaration data
-      template<class D> Link home(D* d) { return optR("home", d->decl_data.master_data->home); }
-      template<class D> Link langlinkage(D* d) { return optL("langlinkage", d->decl_data.master_data->langlinkage); }
-   };
-
-   struct Kind {
-      std::string name;
-      std::function<Instance(Ctx&, const Codes&)> make;
-   };
-   std::vector<Kind> kinds;
-   void add(std::string name, std::function<Instance(Ctx&, const Codes&)> make) { kinds.push_back({std::move(name), std::move(make)}); }
-
-#define KIND(NAME, ...) add(NAME, [](Ctx& c, const Codes& k) -> Instance { auto& L = c.lex; (void) L; (void) k; __VA_ARGS__ });
-#define CLASSIC_UNARY(K, FN) KIND(#K, auto* n = L.FN(c.oe()); return c.I(*n, {c.typing(n->typing), c.optE("op_impl", n->op_impl)});)
-#define PLAIN_UNARY(K, FN) KIND(#K, auto* n = L.FN(c.oe()); return c.I(*n, {c.typing(n->typing)});)
-#define TYPED_UNARY(K, FN) KIND(#K, auto* n = L.FN(c.oe(), c.oty(1)); return c.I(*n);)
-#define CLASSIC_BINARY(K, FN) KIND(#K, auto* n = L.FN(c.oe(0), c.oe(1)); return c.I(*n, {c.typing(n->typing), c.optE("op_impl", n->op_impl)});)
-#define CAST(K, FN) KIND(#K, auto* n = L.FN(c.oty(1), c.oe(0)); return c.I(*n, {c.optE("op_impl", n->op_impl)});)
-#define TYPED_BINARY(K, FN) KIND(#K, auto* n = L.FN(c.oe(0), c.oty(1), c.oty(2)); return c.I(*n);)
-
-   void register_kinds()
-   {
-      // ---- nodes that are not expressions, names --------------------------------------------------------------------
-      KIND("String", return c.I(L.get_string(u8"some words"));)
-      KIND("Region", auto* n = c.work->make_subregion(); return c.I(*n, {c.optE("owned_by", n->owned_by)});)
-      KIND("Region#global", return c.I(static_cast<const ipr::Region&>(*c.global));)
-      KIND("Region#homogeneous", auto* fm = c.forms->make_function_morphism(*c.work, Mapping_level{2});
-           return c.I(fm->inputs.parms, {c.optE("owned_by", fm->inputs.parms.owned_by)});)
-      KIND("Identifier", return c.I(L.get_identifier(u8"an_identifier"));)
-      KIND("Suffix", return c.I(L.get_suffix(c.oid()));)
-      KIND("Operator", return c.I(L.get_operator(u8"+="));)
-      KIND("Conversion", return c.I(L.get_conversion(c.oty()));)
-      KIND("Ctor_name", return c.I(L.get_ctor_name(c.oty()));)
-      KIND("Dtor_name", return c.I(L.get_dtor_name(c.oty()));)
-      KIND("Guide_name", auto* t = c.work->declare_primary_template(c.fresh_id(), L.get_forall(c.product(), c.oty(2)));
-           return c.I(L.get_guide_name(*t));)
-      KIND("Type_id", return c.I(static_cast<const ipr::Node&>(L.get_pointer(c.oty(3)).name()));)
-      KIND("Template_id", return c.I(L.get_template_id(c.oe(), c.xlist()));)
-      // ---- types ------------------------------------------------------------------------------------------------------
-      KIND("Array", return c.I(L.get_array(c.oty(), c.oe(1)));)
-      KIND("As_type", return c.I(L.get_as_type(c.oe()));)
-      KIND("As_type#transfer", return c.I(L.get_as_type(c.oe(), c.foreign_transfer()));)
-      KIND("As_type#extended", return c.I(L.get_as_type(L.get_identifier(u8"__int128")));)
-      KIND("As_type#builtin", return c.I(static_cast<const ipr::Node&>(L.int_type()));)
-      KIND("Decltype", return c.I(L.get_decltype(c.oe()));)
-      KIND("Tor", return c.I(L.get_tor(c.product(), c.sum()));)
-      KIND("Function", return c.I(L.get_function(c.product(), c.oty(2), c.oe(3)));)
-      KIND("Function#transfer", return c.I(L.get_function(c.product(), c.oty(2), c.oe(3), c.foreign_transfer()));)
-      KIND("Pointer", return c.I(L.get_pointer(c.oty()));)
-      KIND("Product", c.warehouses.emplace_back(); auto& w = c.warehouses.back(); w.push_back(c.oty(1)); w.push_back(c.oty(2));
-           return c.I(L.get_product(static_cast<const ipr::Sequence<ipr::Type>&>(w.rep())));)
-      KIND("Product#warehouse", return c.I(c.product());)
-      KIND("Ptr_to_member", return c.I(L.get_ptr_to_member(c.oty(0), c.oty(1)));)
-      KIND("Qualified", return c.I(L.get_qualified(L.const_qualifier(), c.oty()));)
-      KIND("Reference", return c.I(L.get_reference(c.oty()));)
-      KIND("Rvalue_reference", return c.I(L.get_rvalue_reference(c.oty()));)
-      KIND("Sum", return c.I(c.sum());)
-      KIND("Forall", return c.I(L.get_forall(c.product(), c.oty(2)));)
-      KIND("Auto", return c.I(L.get_auto());)
-      KIND("Class", auto* n = L.make_class(*c.work); return c.I(*n, {c.optN("id", n->id)});)
-      KIND("Union", auto* n = L.make_union(*c.work); return c.I(*n, {c.optN("id", n->id)});)
-      KIND("Namespace", auto* n = L.make_namespace(*c.work); return c.I(*n, {c.optN("id", n->id)});)
-      KIND("Closure", auto* n = L.make_closure(*c.work); n->captures.push_back(c.some_var(), Binding_mode::Copy);
-           return c.I(*n, {c.optN("id", n->id)});)
-      KIND("Namespace#global", return c.I(c.unit.global_namespace());)
-      KIND("Enum", auto* n = L.make_enum(*c.work, ipr::Enum::Kind::Scoped); n->add_member(c.oname(1));
-           return c.I(*n, {c.optN("id", n->id), c.typing(n->underlying, "underlying")});)
-      // ---- nullary / container expressions ------------------------------------------------------------------------------
-      KIND("Phantom", auto* n = L.make_phantom(); return c.I(*n, {c.typing(n->typing)});)
-      KIND("Eclipsis", return c.I(*L.make_eclipsis(c.oty()));)
-      KIND("Expr_list", return c.I(c.xlist());)
-      KIND("Overload", auto& v = c.some_var(); return c.I(c.work->bindings()[v.name()].get());)
-      KIND("Overload#singleton", auto& m = c.some_mapping(); return c.I(m.parameters().region().bindings()[c.oname(5)].get());)
-      KIND("Scope", auto* r = c.work->make_subregion(); r->declare_var(c.oname(1), c.oty(1)); return c.I(r->bindings());)
-      KIND("Scope#homogeneous", auto& m = c.some_mapping(); return c.I(m.parameters().region().bindings());)
-      KIND("Parameter_list", auto& m = c.some_mapping(); return c.I(m.parameters());)
-      KIND("Mapping", auto& n = c.some_mapping(); return c.I(n, {c.typing(n.typing), c.optE("body", n.body)});)
-      KIND("Lambda", auto* n = L.make_lambda(*c.work, Mapping_level{1});
-           return c.I(*n, {c.optE("body", n->body), c.optG("typing", n->typing, [&c] { return c.lex.make_closure(*c.work); }),
-                           c.typing(n->value_type, "value_type"), c.optE("decl_constraint", n->decl_constraint), c.optE("eh", n->eh)});)
-      KIND("Requires", auto* n = L.make_requires(*c.work, Mapping_level{1});
-           n->requirements.push_back(c.forms->make_simple_requirement(c.oe())); return c.I(*n);)
-      // ---- unary expressions ----------------------------------------------------------------------------------------------
-      KIND("Symbol", return c.I(L.get_symbol(c.oname(), c.oty()));)
-      CLASSIC_UNARY(Address, make_address) CLASSIC_UNARY(Array_delete, make_array_delete) CLASSIC_UNARY(Complement, make_complement)
-      CLASSIC_UNARY(Delete, make_delete) CLASSIC_UNARY(Deref, make_deref) CLASSIC_UNARY(Not, make_not)
-      CLASSIC_UNARY(Post_decrement, make_post_decrement) CLASSIC_UNARY(Post_increment, make_post_increment)
-      CLASSIC_UNARY(Pre_decrement, make_pre_decrement) CLASSIC_UNARY(Pre_increment, make_pre_increment) CLASSIC_UNARY(Throw, make_throw)
-      CLASSIC_UNARY(Unary_minus, make_unary_minus) CLASSIC_UNARY(Unary_plus, make_unary_plus) CLASSIC_UNARY(Expansion, make_expansion)
-      KIND("Construction", auto* n = L.make_construction(c.oty(1), c.enclosure()); return c.I(*n, {c.optE("op_impl", n->op_impl)});)
-      PLAIN_UNARY(Alignof, make_alignof) PLAIN_UNARY(Sizeof, make_sizeof) PLAIN_UNARY(Args_cardinality, make_args_cardinality)
-      PLAIN_UNARY(Typeid, make_typeid) PLAIN_UNARY(Noexcept, make_noexcept)
-      KIND("Label", auto* n = L.make_label(c.oid()); return c.I(*n, {c.typing(n->typing)});)
-      KIND("Enclosure", auto* n = L.make_enclosure(Delimiter::Brace, c.oe()); return c.I(*n, {c.typing(n->typing)});)
-      TYPED_UNARY(Demotion, make_demotion) TYPED_UNARY(Materialization, make_materialization) TYPED_UNARY(Promotion, make_promotion)
-      TYPED_UNARY(Read, make_read)
-      KIND("Asm", return c.I(static_cast<const ipr::Node&>(L.make_asm(c.ostr())->expression()));)
-      KIND("Restriction", return c.I(*L.make_restriction(c.oe()));)
-      KIND("Id_expr", auto* n = L.make_id_expr(c.oname()); return c.I(*n, {c.typing(n->typing), c.optE("decls", n->decls)});)
-      KIND("Id_expr#decl", auto& v = c.some_var(); return c.I(*L.make_id_expr(static_cast<const ipr::Decl&>(v)));)
-      // ---- binary expressions -----------------------------------------------------------------------------------------------
-      KIND("Rewrite", auto* n = L.make_rewrite(c.oe(), c.operand(k, 0, "second")); return c.I(*n, {c.pseudo("second")});)
-      CLASSIC_BINARY(Scope_ref, make_scope_ref) CLASSIC_BINARY(And, make_and) CLASSIC_BINARY(Array_ref, make_array_ref)
-      CLASSIC_BINARY(Arrow, make_arrow) CLASSIC_BINARY(Arrow_star, make_arrow_star) CLASSIC_BINARY(Assign, make_assign)
-      CLASSIC_BINARY(Bitand, make_bitand) CLASSIC_BINARY(Bitand_assign, make_bitand_assign) CLASSIC_BINARY(Bitor, make_bitor)
-      CLASSIC_BINARY(Bitor_assign, make_bitor_assign) CLASSIC_BINARY(Bitxor, make_bitxor) CLASSIC_BINARY(Bitxor_assign, make_bitxor_assign)
-      KIND("Call", auto* n = L.make_call(c.oe(), c.xlist()); return c.I(*n, {c.typing(n->typing), c.optE("op_impl", n->op_impl)});)
-      CLASSIC_BINARY(Comma, make_comma) CLASSIC_BINARY(Div, make_div) CLASSIC_BINARY(Div_assign, make_div_assign)
-      CLASSIC_BINARY(Dot, make_dot) CLASSIC_BINARY(Dot_star, make_dot_star) CLASSIC_BINARY(Equal, make_equal)
-      CLASSIC_BINARY(Greater, make_greater) CLASSIC_BINARY(Greater_equal, make_greater_equal) CLASSIC_BINARY(Less, make_less)
-      CLASSIC_BINARY(Less_equal, make_less_equal) CLASSIC_BINARY(Lshift, make_lshift) CLASSIC_BINARY(Lshift_assign, make_lshift_assign)
-      CLASSIC_BINARY(Minus, make_minus) CLASSIC_BINARY(Minus_assign, make_minus_assign) CLASSIC_BINARY(Modulo, make_modulo)
-      CLASSIC_BINARY(Modulo_assign, make_modulo_assign) CLASSIC_BINARY(Mul, make_mul) CLASSIC_BINARY(Mul_assign, make_mul_assign)
-      CLASSIC_BINARY(Not_equal, make_not_equal) CLASSIC_BINARY(Or, make_or) CLASSIC_BINARY(Plus, make_plus)
-      CLASSIC_BINARY(Plus_assign, make_plus_assign) CLASSIC_BINARY(Rshift, make_rshift) CLASSIC_BINARY(Rshift_assign, make_rshift_assign)
-      KIND("Binary_fold", auto* n = L.make_binary_fold(Category_code::Plus, c.oe(0), c.oe(1));
-           return c.I(*n, {c.typing(n->typing), c.optE("op_impl", n->op_impl)});)
-      KIND("New", auto* n = L.make_new(&c.xlist(), *L.make_construction(c.oty(1), c.enclosure()));
-           return c.I(*n, {c.typing(n->typing), c.optE("op_impl", n->op_impl)});)
-      CAST(Cast, make_cast) CAST(Const_cast, make_const_cast) CAST(Dynamic_cast, make_dynamic_cast)
-      CAST(Reinterpret_cast, make_reinterpret_cast) CAST(Static_cast, make_static_cast)
-      KIND("Literal", auto* n = L.make_literal(c.oty(1), u8"42"); return c.I(*n, {c.optE("op_impl", n->op_impl)});)
-      KIND("Coercion", auto* n = L.make_coercion(c.oe(0), c.oty(1), c.oty(2)); return c.I(*n, {c.optE("op_impl", n->op_impl)});)
-      KIND("Member_init", auto* n = L.make_member_init(c.oe(0), c.oe(1)); return c.I(*n, {c.typing(n->typing)});)
-      TYPED_BINARY(Narrow, make_narrow) TYPED_BINARY(Pretend, make_pretend) TYPED_BINARY(Widen, make_widen)
-      KIND("Qualification", return c.I(*L.make_qualification(c.oe(), L.const_qualifier(), c.oty(1)));)
-      KIND("Where#nodecl", auto* n = L.make_where(c.operand(k, 0, "first"), c.oe(1)); return c.I(*n, {c.pseudo("first")});)
-      KIND("Where", auto* n = L.make_where(*c.work); return c.I(*n, {c.deepE("result", n->result)});)
-      KIND("Static_assert", return c.I(static_cast<const ipr::Node&>(L.make_static_assert(c.oe(), &c.ostr())->expression()));)
-      KIND("Instantiation", auto& m = c.some_mapping();
-           auto* n = L.make_instantiation(c.oe(), *L.make_elementary_substitution(*m.inputs.begin(), c.oe(1)));
-           return c.I(*n, {c.deepE("result", n->result)});)
-      KIND("Conditional", auto* n = L.make_conditional(c.oe(0), c.oe(1), c.oe(2));
-           return c.I(*n, {c.typing(n->typing), c.optE("op_impl", n->op_impl)});)
-      // ---- directives ---------------------------------------------------------------------------------------------------------
-      KIND("Specifiers_spread", auto* n = L.make_specifiers_spread(); return c.I(*n, {c.typing(n->typing)});)
-      KIND("Structured_binding", auto* n = L.make_structured_binding(); n->ids.push_back(&c.oid(1));
-           return c.I(*n, {c.typing(n->typing), c.optE("init", n->init)});)
-      KIND("Using_declaration#single", auto* n = L.make_using_declaration(c.scope_ref(), ipr::Using_declaration::Designator::Mode::Type);
-           return c.I(*n, {c.typing(n->typing)});)
-      KIND("Using_declaration", auto* n = L.make_using_declaration();
-           n->seq.push_back(c.scope_ref(), ipr::Using_declaration::Designator::Mode::Normal); return c.I(*n, {c.typing(n->typing)});)
-      KIND("Using_directive", return c.I(*L.make_using_directive(c.work->bindings(), c.oty()));)
-      KIND("Phased_evaluation", auto* n = L.make_phased_evaluation(c.operand(k, 0, "expression"), Phases::Elaboration);
-           return c.I(*n, {c.pseudo("expression")});)
-      KIND("Pragma", auto* n = L.make_pragma(); n->tokens.push_back(c.ostr(), Source_location{}, TokenValue{7}, TokenCategory{2});
-           return c.I(*n, {c.typing(n->typing)});)
-      // ---- statements ---------------------------------------------------------------------------------------------------------
-      KIND("Labeled_stmt", auto* n = L.make_labeled_stmt(c.oe(), c.operand(k, 0, "second")); return c.I(*n, {c.pseudo("second")});)
-      KIND("Block", auto* n = L.make_block(*c.work); n->add_stmt(c.oe()); n->new_handler(c.oname(), c.oty());
-           return c.I(*n, {c.typing(n->typing)});)
-      KIND("Block#handler", auto* b = L.make_block(*c.work); auto* h = b->new_handler(c.oname(), c.oty());
-           return c.I(static_cast<const ipr::Handler&>(*h).body(), {c.typing(h->body().typing)});)
-      KIND("Ctor_body", auto* n = L.make_ctor_body(c.xlist(), *L.make_block(*c.work, c.oty(1))); return c.I(*n, {c.typing(n->typing)});)
-      KIND("Expr_stmt", auto* n = L.make_expr_stmt(c.operand(k, 0, "operand")); return c.I(*n, {c.pseudo("operand")});)
-      KIND("Goto", auto* n = L.make_goto(c.operand(k, 0, "operand")); return c.I(*n, {c.pseudo("operand")});)
-      KIND("Return", auto* n = L.make_return(c.oe()); return c.I(*n, {c.typing(n->typing)});)
-      KIND("If", auto* n = L.make_if(c.oe(0), c.oe(1)); return c.I(*n, {c.typing(n->typing)});)
-      KIND("If#else", auto* n = L.make_if(c.oe(0), c.oe(1), c.oe(2)); return c.I(*n, {c.typing(n->typing)});)
-      KIND("Switch", auto* n = L.make_switch(); return c.I(*n, {c.optE("control", n->control), c.deepE("stmt", n->stmt)});)
-      KIND("While", auto* n = L.make_while(); return c.I(*n, {c.optE("control", n->control), c.deepE("stmt", n->stmt)});)
-      KIND("Do", auto* n = L.make_do(); return c.I(*n, {c.optE("control", n->control), c.deepE("stmt", n->stmt)});)
-      KIND("For", auto* n = L.make_for();
-           return c.I(*n, {c.optE("init", n->init), c.optE("cond", n->cond), c.optE("inc", n->inc), c.deepS("stmt", n->stmt)});)
-      KIND("For_in", auto* n = L.make_for_in();
-           return c.I(*n, {c.optG("var", n->var, [&c] { return &c.some_var(); }), c.optE("seq", n->seq), c.deepS("stmt", n->stmt)});)
-      KIND("Break", auto* n = L.make_break(); return c.I(*n, {c.optS("stmt", n->stmt)});)
-      KIND("Continue", auto* n = L.make_continue(); return c.I(*n, {c.optS("stmt", n->stmt)});)
-      KIND("Handler", auto* b = L.make_block(*c.work); auto* h = b->new_handler(c.oname(), c.oty());
-           return c.I(*h, {c.typing(h->body().typing, "body_typing")});)
-      // ---- declarations -------------------------------------------------------------------------------------------------------
-      KIND("Alias", auto* n = c.work->make_subregion()->scope.make_alias(c.oname(), c.oe(1)); return c.I(*n, {c.home(n), c.langlinkage(n)});)
-      KIND("Var", auto* n = c.work->make_subregion()->declare_var(c.oname(), c.oty(1));
-           return c.I(*n, {c.optE("init", n->init), c.optR("lexreg", n->lexreg), c.home(n), c.langlinkage(n),
-                           c.optG("def", n->decl_data.master_data->def, [&c] { return &c.some_var(); })});)
-      KIND("Var#redeclared", auto* r = c.work->make_subregion(); r->declare_var(c.oname(), c.oty(1)); auto* n = r->declare_var(c.oname(), c.oty(1));
-           return c.I(*n, {c.optE("init", n->init), c.optR("lexreg", n->lexreg), c.home(n), c.langlinkage(n),
-                           c.optG("def", n->decl_data.master_data->def, [&c] { return &c.some_var(); })});)
-      KIND("Field", auto* n = c.work->make_subregion()->declare_field(c.oname(), c.oty(1));
-           return c.I(*n, {c.optE("init", n->init), c.home(n), c.langlinkage(n)});)
-      KIND("Bitfield", auto* n = c.work->make_subregion()->declare_bitfield(c.oname(), c.oty(1));
-           return c.I(*n, {c.optE("length", n->length), c.optE("init", n->init), c.home(n), c.langlinkage(n)});)
-      KIND("Typedecl", auto* n = c.work->make_subregion()->declare_type(c.oname(), c.oty(1));
-           return c.I(*n, {c.typing(n->init, "init"), c.optR("lexreg", n->lexreg), c.home(n), c.langlinkage(n),
-                           c.optG("def", n->decl_data.master_data->def, [&c] { return c.work->declare_type(c.fresh_id(), c.oty(2)); })});)
-      KIND("Fundecl", auto* n = c.work->make_subregion()->declare_fun(c.oname(), L.get_function(c.product(), c.oty(2)));
-           Link data{"data", 4, [&c, n](int code) {
-              if (code == 1) { auto& m = c.some_mapping(); c.sym("$data", m.inputs); n->data.emplace<0>(&m.inputs); }
-              else if (code == 2) { auto& m = c.some_mapping(); c.sym("$data", m); c.sym("$data.parameters", m.inputs); n->data.emplace<1>(&m); }
-              else if (code == 3) n->data.emplace<1>(nullptr);
-           }};
-           return c.I(*n, {data, c.optR("lexreg", n->lexreg), c.home(n), c.langlinkage(n),
-                           c.optG("def", n->decl_data.master_data->def,
-                                  [&c] { return c.work->declare_fun(c.fresh_id(), c.lex.get_function(c.product(), c.oty(3))); })});)
-      for (int primary = 1; primary >= 0; --primary)
-         add(primary ? "Template" : "Template#secondary", [primary](Ctx& c, const Codes&) -> Instance {
-            auto& L = c.lex;
-            auto& forall = L.get_forall(c.product(), c.oty(2));
-            auto* r = c.work->make_subregion();
-            auto* n = primary ? r->declare_primary_template(c.oname(), forall) : r->declare_secondary_template(c.oname(), forall);
-            Link init{"init", 3, [&c, n](int code) {
-               if (code == 0) return;
-               auto& m = c.some_mapping();
-               c.sym("$init", m);
-               c.sym("$init.parameters", m.inputs);
-               if (code == 2) m.body = &c.E("$init.result");
-               n->init = &m;
-            }};
-            auto other = [&c, &forall] { return c.work->declare_primary_template(c.fresh_id(), forall); };
-            std::vector<Link> links{init, c.optR("lexreg", n->lexreg), c.home(n), c.langlinkage(n),
-                                    c.optG("def", n->decl_data.master_data->def, other)};
-            if (not primary) links.push_back(c.optG("primary", n->decl_data.master_data->primary, other));
-            return c.I(*n, links);
-         });
-      KIND("Parameter", auto& m = c.some_mapping(); auto* n = m.param(c.oname(1), c.oty(1)); return c.I(*n, {c.optE("init", n->init)});)
-      KIND("Enumerator", auto* e = L.make_enum(*c.work, ipr::Enum::Kind::Legacy); auto* n = e->add_member(c.oname());
-           return c.I(*n, {c.optE("init", n->init)});)
-      KIND("Base_type", auto* k2 = L.make_class(*c.work); return c.I(*k2->declare_base(c.oty()));)
-      KIND("EH_parameter", auto* b = L.make_block(*c.work); auto* h = b->new_handler(c.oname(), c.oty());
-           return c.I(static_cast<const ipr::Handler&>(*h).exception());)
-      // ---- objects that are not nodes -------------------------------------------------------------------------------------------
-      KIND("Token", return c.I(c.otok());)
-      KIND("BasicAttribute", return c.I(c.attrs.make_basic_attribute(c.otok()));)
-      KIND("ScopedAttribute", return c.I(c.attrs.make_scoped_attribute(c.otok(0), c.otok(1)));)
-      KIND("LabeledAttribute", return c.I(c.attrs.make_labeled_attribute(c.otok(0), c.attrs.make_basic_attribute(c.otok(1))));)
-      KIND("CalledAttribute", return c.I(c.attrs.make_called_attribute(c.attrs.make_basic_attribute(c.otok(1)), c.attr_seq()));)
-      KIND("ExpandedAttribute", return c.I(c.attrs.make_expanded_attribute(c.otok(0), c.attrs.make_basic_attribute(c.otok(1))));)
-      KIND("FactoredAttribute", return c.I(c.attrs.make_factored_attribute(c.otok(0), c.attr_seq()));)
-      KIND("ElaboratedAttribute", return c.I(c.attrs.make_elaborated_attribute(c.oe()));)
-      KIND("Capture", auto* cl = L.make_closure(*c.work); return c.I(*cl->captures.push_back(c.some_var(), Binding_mode::Reference));)
-      KIND("Capture_specification::Default", return c.I(c.caps.default_capture(Binding_mode::Copy));)
-      KIND("Capture_specification::Implicit_object", return c.I(c.caps.implicit_object_capture(Binding_mode::Reference));)
-      KIND("Capture_specification::Enclosing_local", auto& v = c.some_var(); return c.I(c.caps.enclosing_local_capture(v, Binding_mode::Copy));)
-      KIND("Capture_specification::Binding", return c.I(c.caps.binding_capture(c.oid(), c.oe(), Binding_mode::Move));)
-      KIND("Capture_specification::Expansion", return c.I(c.caps.expansion_capture(c.caps.binding_capture(c.oid(), c.oe(), Binding_mode::Copy)));)
-      KIND("Substitution#elementary", auto& m = c.some_mapping(); return c.I(*L.make_elementary_substitution(*m.inputs.begin(), c.oe()));)
-      KIND("Substitution#general", return c.I(*L.make_general_substitution());)
-      KIND("Module_name", c.module.stems.components.push_back(&c.oid()); return c.I(c.module.name());)
-      KIND("Module", c.module.make_unit(); return c.I(static_cast<const ipr::Module&>(c.module));)
-      KIND("Translation_unit", return c.I(c.unit);)
-      KIND("Module_unit", return c.I(*c.module.make_unit());)
-      KIND("Interface_unit", return c.I(c.module.interface_unit());)
-      // ---- declarator forms -----------------------------------------------------------------------------------------------------
-#define FORM(NAME, ...) KIND(NAME, auto& F = *c.forms; (void) F; __VA_ARGS__)
-      FORM("Constraint::Monadic", return c.I(*F.make_monadic_constraint(c.oid()));)
-      FORM("Constraint::Monadic#scoped", return c.I(*F.make_monadic_constraint(c.oe(), c.oid()));)
-      FORM("Constraint::Polyadic", auto* n = F.make_polyadic_constraint(c.oid()); n->args.push_back(&c.oe(1)); return c.I(*n);)
-      FORM("Constraint::Polyadic#scoped", auto* n = F.make_polyadic_constraint(c.oe(), c.oid()); n->args.push_back(&c.oe(1)); return c.I(*n);)
-      FORM("Requirement::Simple", return c.I(*F.make_simple_requirement(c.oe()));)
-      FORM("Requirement::Type", return c.I(*F.make_type_requirement(c.oname()));)
-      FORM("Requirement::Type#scoped", return c.I(*F.make_type_requirement(c.oe(), c.oname()));)
-      FORM("Requirement::Compound", auto* n = F.make_compound_requirement(c.oe());
-           return c.I(*n, {c.optG("type", n->type, [&c] { return c.forms->make_monadic_constraint(c.oid(2)); })});)
-      FORM("Requirement::Nested", return c.I(*F.make_nested_requirement(c.oe()));)
-      FORM("Indirector::Pointer", return c.I(*F.make_pointer_indirector(L.const_qualifier()));)
-      FORM("Indirector::Reference", return c.I(*F.make_reference_indirector(cf::Reference_flavor::Rvalue));)
-      FORM("Indirector::Member", return c.I(*F.make_member_indirector(c.oe(), L.volatile_qualifier()));)
-      FORM("Species::Unqualified_id", return c.I(*F.make_unqualified_id_species());)
-      FORM("Species::Unqualified_id#named", return c.I(*F.make_unqualified_id_species(c.oname()));)
-      FORM("Species::Pack", return c.I(*F.make_pack_species());)
-      FORM("Species::Pack#named", return c.I(*F.make_pack_species(c.oid()));)
-      FORM("Species::Qualified_id", return c.I(*F.make_qualified_id_species(c.oe(), c.oname()));)
-      FORM("Species::Parenthesized", auto* n = F.make_parenthesized_species();
-           return c.I(*n, {c.optG("declarator", n->declarator, [&c] { return c.forms->make_term_declarator(); })});)
-      FORM("Morphism::Function", auto* n = F.make_function_morphism(*c.work, Mapping_level{1}); return c.I(*n, {c.optE("eh_spec", n->eh_spec)});)
-      FORM("Morphism::Array", auto* n = F.make_array_morphism(); return c.I(*n, {c.optE("array_bound", n->array_bound)});)
-      FORM("Declarator::Term", auto* n = F.make_term_declarator(); n->prefix.push_back(F.make_pointer_indirector(L.const_qualifier()));
-           return c.I(*n, {c.optG("tail", n->tail, [&c] { return c.forms->make_unqualified_id_species(c.oname(3)); })});)
-      FORM("Declarator::Targeted", return c.I(*F.make_targeted_declarator(*F.make_pack_species(c.oid()), c.oty()));)
-      FORM("Classic_provision", return c.I(*F.make_classic_provision(*F.make_braced_provision()));)
-      FORM("Parenthesized_provision", return c.I(*F.make_parenthesized_provision(c.oe()));)
-      FORM("Braced_provision", auto* n = F.make_braced_provision(); n->seq.push_back(F.make_braced_provision()); return c.I(*n);)
-      FORM("Designated_list_provision", auto* n = F.make_designated_provision();
-           n->seq.push_back(*F.make_field_designator(c.oid()), *F.make_parenthesized_provision(c.oe())); return c.I(*n);)
-      FORM("Field_designator", return c.I(*F.make_field_designator(c.oid()));)
-      FORM("Slot_designator", return c.I(*F.make_slot_designator(c.oe()));)
-      FORM("Earmarked_initializer", auto* n = F.make_designated_provision();
-           return c.I(*n->seq.push_back(*F.make_slot_designator(c.oe()), *F.make_parenthesized_provision(c.oe(1))));)
-   }
-
    // ---------------------------------------------------------------------------------------------------- canonical values
    std::string canon(Ctx& c, const std::string& self, std::size_t watermark, const std::string& v)
    {
@@ -576,191 +116,6 @@ namespace {
          i = j;
       }
       return out;
-   }
-
-   // ---------------------------------------------------------------------------------------------------- sequences
-   struct Labels {
-      std::map<const void*, std::string> of;
-      template<class T> const void* key(const T& x) const
-      {
-         if constexpr (std::is_polymorphic_v<T>) return dynamic_cast<const void*>(&x);
-         else return static_cast<const void*>(&x);
-      }
-      template<class T> void put(const T& x, const std::string& l) { of[key(x)] = l; }
-      template<class T> std::string get(const T& x) const
-      {
-         auto it = of.find(key(x));
-         return it == of.end() ? std::string("?") : it->second;
-      }
-   };
-
-   template<class T>
-   std::string view_line(const ipr::Sequence<T>& s, const Labels& lab)
-   {
-      using It = typename ipr::Sequence<T>::Iterator;
-      const std::size_t n = s.size();
-      const std::size_t cap = n + 4;
-      std::ostringstream os;
-      os << "size=#" << n << " empty=#" << (s.empty() ? 1 : 0) << " get=[";
-      for (std::size_t i = 0; i < n + 3; ++i) os << (i ? "," : "") << guardL([&] { return lab.get(*s.position(i)); });
-      os << "|" << guardL([&] { return lab.get(*s.position(SIZE_MAX)); }) << "]";
-      std::vector<std::string> fwd, fwd_post, bwd, bwd_post;
-      std::size_t steps = 0;
-      for (It it = s.begin(); it != s.end() and steps < cap; ++it, ++steps) fwd.push_back(guardL([&] { return lab.get(*it); }));
-      steps = 0;
-      for (It it = s.begin(); it != s.end() and steps < cap; ++steps) { It cur = it++; fwd_post.push_back(guardL([&] { return lab.get(*cur); })); }
-      steps = 0;
-      for (It it = s.end(); it != s.begin() and steps < cap; ++steps) { --it; bwd.push_back(guardL([&] { return lab.get(*it); })); }
-      steps = 0;
-      for (It it = s.end(); it != s.begin() and steps < cap; ++steps) { it--; bwd_post.push_back(guardL([&] { return lab.get(*it); })); }
-      auto show = [](const std::vector<std::string>& v) {
-         std::string r = "[";
-         for (std::size_t i = 0; i < v.size(); ++i) { if (i) r += ','; r += v[i]; }
-         return r + "]";
-      };
-      os << " fwd=" << show(fwd) << " bwd=" << show(bwd);
-      os << " end=" << guardL([&] { return lab.get(*s.end()); });
-      os << " rend=" << guardL([&] { It it = s.begin(); --it; return lab.get(*it); });
-      // implementation-only consistency: postfix forms, operator->, position() against begin()+i
-      bool arrow = true, pos = true;
-      {
-         It it = s.begin();
-         for (std::size_t i = 0; i < n; ++i, ++it) {
-            if (not (it == s.position(i)) or it != s.position(i)) pos = false;
-            try { const T* p = it.operator->(); if (p != &*it) arrow = false; }
-            catch (const std::logic_error&) { }
-         }
-         if (not (it == s.end())) pos = false;
-      }
-      os << "\n@postfix=" << (fwd == fwd_post and bwd == bwd_post ? 1 : 0) << "\n@arrow=" << (arrow ? 1 : 0) << "\n@position=" << (pos ? 1 : 0);
-      return os.str();
-   }
-
-   // Build a ref_sequence from a pattern: leading `u` by the sizing constructor, later `u` by resize(size+1), `n` push_back(nullptr),
-   // `s` / `p` push_back(&element k).
-   template<class Seq, class Elem>
-   void fill_ref(Seq& seq, const std::string& rest, Elem elem)
-   {
-      int k = 0;
-      for (char ch : rest) {
-         if (ch == 'u') seq.resize(seq.size() + 1);
-         else if (ch == 'n') seq.push_back(nullptr);
-         else seq.push_back(elem(k++, ch == 'p'));
-      }
-   }
-
-   std::string seq_op(Ctx& c, const std::string& impl_name, const std::string& pattern, const std::string& view)
-   {
-      auto& L = c.lex;
-      const std::string pat = pattern == "-" ? std::string() : pattern;
-      std::size_t lead = 0;
-      while (lead < pat.size() and pat[lead] == 'u') ++lead;
-      const std::string rest = pat.substr(lead);
-      Labels lab;
-      auto typed_expr = [&](int k, bool untyped) -> const ipr::Expr* {
-         if (untyped) { const ipr::Expr* e = L.make_phantom(); lab.put(*e, "e" + std::to_string(k)); return e; }
-         auto& t = c.T();
-         const ipr::Expr* e = L.make_phantom(t);
-         lab.put(*e, "e" + std::to_string(k));
-         lab.put(t, "t" + std::to_string(k));
-         return e;
-      };
-      auto decl = [&](int k, bool) -> const ipr::Decl* {
-         auto& t = c.T();
-         const ipr::Decl* d = c.work->declare_var(c.fresh_id(), t);
-         lab.put(*d, "e" + std::to_string(k));
-         lab.put(t, "t" + std::to_string(k));
-         return d;
-      };
-      if (impl_name == "ref") {
-         impl::ref_sequence<ipr::Expr> s(lead);
-         fill_ref(s, rest, typed_expr);
-         return view_line<ipr::Expr>(s, lab);
-      }
-      if (impl_name == "decl") {
-         impl::decl_sequence s;
-         s.resize(lead);
-         fill_ref(s, rest, decl);
-         return view_line<ipr::Decl>(s, lab);
-      }
-      if (impl_name == "warehouse" or impl_name == "warehouse-product") {
-         impl::Warehouse<ipr::Type> w(lead);
-         for (std::size_t i = 0; i < rest.size(); ++i) { auto& t = c.T(); lab.put(t, "e" + std::to_string(i)); w.push_back(t); }
-         if (impl_name == "warehouse") return view_line<ipr::Type>(w.rep(), lab);
-         impl::Lexicon fresh_lexicon;                      // empty unification tables: building the product compares nothing
-         const ipr::Product& p = fresh_lexicon.get_product(w);
-         std::string line = view_line<ipr::Type>(p.elements(), lab);
-         std::string idx = "\n@index=[";
-         for (std::size_t i = 0; i < p.size() + 1; ++i) idx += (i ? "," : "") + guardL([&] { return lab.get(p[i]); });
-         return line + idx + "]";
-      }
-      if (impl_name == "objseq" or impl_name == "objlist") {
-         auto run = [&](auto& s) {
-            for (std::size_t i = 0; i < pat.size(); ++i) lab.put(*s.push_back(c.some_var(), Binding_mode::Copy), "e" + std::to_string(i));
-            return view_line<ipr::Capture>(s, lab);
-         };
-         if (impl_name == "objseq") { impl::obj_sequence<impl::Capture> s; return run(s); }
-         impl::obj_list<impl::Capture> s;
-         return run(s);
-      }
-      if (impl_name == "empty") { impl::empty_sequence<ipr::Handler> s; return view_line<ipr::Handler>(s, lab); }
-      if (impl_name == "sobj") {
-         impl::singleton_obj<ipr::Using_declaration::Designator> s(c.scope_ref(), ipr::Using_declaration::Designator::Mode::Normal);
-         lab.put(s.element(), "e0");
-         return view_line<ipr::Using_declaration::Designator>(s, lab);
-      }
-      if (impl_name == "sref") {
-         const ipr::Decl& d = c.some_var();
-         lab.put(d, "e0");
-         impl::singleton_ref<ipr::Decl> s(d);
-         return view_line<ipr::Decl>(s, lab);
-      }
-      if (impl_name == "typedref") {
-         impl::typed_sequence<impl::ref_sequence<ipr::Expr>> s;
-         s.seq.resize(lead);
-         fill_ref(s.seq, rest, typed_expr);
-         return view_line<ipr::Type>(s, lab);
-      }
-      if (impl_name == "typeddecl") {
-         impl::typed_sequence<impl::decl_sequence> s;
-         s.seq.resize(lead);
-         fill_ref(s.seq, rest, decl);
-         return view_line<ipr::Type>(s, lab);
-      }
-      if (impl_name == "typedlist" or impl_name == "homlist") {
-         auto* m = L.make_mapping(*c.work, Mapping_level{1});
-         for (std::size_t i = 0; i < pat.size(); ++i) {
-            auto& t = c.T();
-            lab.put(*m->param(c.fresh_id(), t), "e" + std::to_string(i));
-            lab.put(t, "t" + std::to_string(i));
-         }
-         const ipr::Parameter_list& pl = m->parameters();
-         if (impl_name == "typedlist" or view == "type") return view_line<ipr::Type>(pl.type().elements(), lab);
-         if (view == "expr") return view_line<ipr::Expr>(pl.region().body(), lab);
-         return view_line<ipr::Decl>(pl.region().bindings().elements(), lab);
-      }
-      if (impl_name == "homseq") {
-         auto* en = L.make_enum(*c.work, ipr::Enum::Kind::Legacy);
-         for (std::size_t i = 0; i < pat.size(); ++i) lab.put(*en->add_member(c.fresh_id()), "e" + std::to_string(i));
-         lab.put(static_cast<const ipr::Type&>(*en), "t0");               // every enumerator has the one enumeration as its type
-         const ipr::Region& r = en->region();
-         if (view == "expr") return view_line<ipr::Expr>(r.body(), lab);
-         if (view == "type") return view_line<ipr::Type>(util::view<ipr::Product>(r.bindings().type())->elements(), lab);
-         return view_line<ipr::Decl>(r.bindings().elements(), lab);
-      }
-      if (impl_name == "homsingle") {
-         auto* b = L.make_block(*c.work);
-         auto& t = c.T();
-         auto* h = b->new_handler(c.fresh_id(), t);
-         const ipr::Handler& hh = *h;
-         lab.put(hh.exception(), "e0");
-         lab.put(t, "t0");
-         const ipr::Region& r = hh.body().region().enclosing();          // the region binding exactly the exception parameter
-         if (view == "expr") return view_line<ipr::Expr>(r.body(), lab);
-         if (view == "type") return view_line<ipr::Type>(util::view<ipr::Product>(r.bindings().type())->elements(), lab);
-         return view_line<ipr::Decl>(r.bindings().elements(), lab);
-      }
-      return "bad-op";
    }
 
    // ---------------------------------------------------------------------------------------------------- ops
@@ -862,7 +217,9 @@ int main(int argc, char** argv)
 {
    std::ios::sync_with_stdio(false);
    const std::uint64_t seed = argc > 1 ? std::strtoull(argv[1], nullptr, 10) : 1;
-   register_kinds();
+   register_kinds_a();
+   register_kinds_b();
+   register_kinds_c();
    Ctx c;
    c.build(seed);
    std::string line;
